@@ -39,7 +39,7 @@ impl Op {
 #[derive(Clone, Debug)]
 pub struct Scenario { pub prog: Program, pub n_inputs: u32, pub n_ext: u32, pub ops: Vec<Op> }
 
-pub struct GenCfg { pub max_nodes: u32, pub max_ops: u32, pub allow_fw: bool, pub allow_proj: bool, pub allow_ext: bool, pub allow_group: bool, pub restarts: bool }
+pub struct GenCfg { pub max_nodes: u32, pub max_ops: u32, pub allow_fw: bool, pub allow_proj: bool, pub allow_ext: bool, pub allow_group: bool, pub restarts: bool, pub cyclic: bool }
 
 fn gen_expr(r: &mut Rng, leaves: &[Node], depth: u32, allow_group: bool) -> Expr {
     if leaves.is_empty() { return Expr::Const(r.below(5) as i64); }
@@ -74,12 +74,31 @@ pub fn gen_scenario(r: &mut Rng, c: &GenCfg) -> Scenario {
     let mut avail: Vec<Node> = (0..n_inputs).map(|i| Node { kind: Kind::Input, idx: i }).collect();
     avail.extend((0..n_ext).map(|i| Node { kind: Kind::External, idx: i }));
     let mut counters = [0u32; 5];
-    for _ in 0..n_exec {
-        let fwprj: Vec<Node> = avail.iter().copied().filter(|n| matches!(n.kind, Kind::Firewall | Kind::Projection)).collect();
+    // cyclic programs: decide all node names first so that a body may read any of them
+    let mut planned: Vec<Node> = Vec::new();
+    if c.cyclic {
+        let mut cnt = [0u32; 5];
+        let mut have_fw = false;
+        for _ in 0..n_exec {
+            let roll = r.below(100);
+            let kind = if c.allow_proj && have_fw && roll < 20 { Kind::Projection } else if c.allow_fw && roll < 45 { Kind::Firewall } else { Kind::Normal };
+            if kind == Kind::Firewall { have_fw = true; }
+            planned.push(Node { kind, idx: cnt[kind as usize] }); cnt[kind as usize] += 1;
+        }
+    }
+    for k in 0..n_exec {
+        let mut fwprj: Vec<Node> = avail.iter().copied().filter(|n| matches!(n.kind, Kind::Firewall | Kind::Projection)).collect();
         let roll = r.below(100);
-        let kind = if c.allow_proj && !fwprj.is_empty() && roll < 25 { Kind::Projection }
+        let kind = if c.cyclic { planned[k as usize].kind }
+                   else if c.allow_proj && !fwprj.is_empty() && roll < 25 { Kind::Projection }
                    else if c.allow_fw && roll < 50 { Kind::Firewall } else { Kind::Normal };
         let idx = counters[kind as usize]; counters[kind as usize] += 1;
+        if c.cyclic {
+            // back/self edges: every planned node (including this one and later ones) may be read
+            let later: Vec<Node> = planned.iter().copied().filter(|n| !avail.contains(n)).collect();
+            fwprj.extend(later.iter().copied().filter(|n| matches!(n.kind, Kind::Firewall | Kind::Projection)));
+            if r.chance(1, 2) { for n in later.iter().take(2) { avail.push(*n); } }
+        }
         let leaves: Vec<Node> = if kind == Kind::Projection { fwprj } else {
             // bias towards recent nodes so that chains form, keep inputs reachable
             let mut l = avail.clone();
@@ -91,7 +110,8 @@ pub fn gen_scenario(r: &mut Rng, c: &GenCfg) -> Scenario {
         let m = *r.pick(&[2i64, 3, 5, 10, 100]);
         let n = Node { kind, idx };
         prog.exprs.insert(n, Expr::Mod(Box::new(body), m));
-        avail.push(n);
+        if c.cyclic { avail.retain(|x| planned.contains(x) == false || prog.exprs.contains_key(x)); }
+        if !avail.contains(&n) { avail.push(n); }
     }
     let execs: Vec<Node> = prog.exprs.keys().copied().collect();
     let mut ops = vec![Op::Session { sets: (0..n_inputs).map(|i| (i, r.below(6) as i64)).collect(), refresh: false }];
@@ -160,6 +180,7 @@ pub enum Opened<C: Config> { E(Arc<Engine<C>>) }
 /// run one op on an engine
 pub async fn run_op<C: Config>(engine: &Arc<Engine<C>>, w: &Arc<World>, op: &Op) -> OpResult {
     w.take_log();
+    if crate::prog::trace_on() { eprintln!("op {:?}", op); }
     match op {
         Op::Session { sets, refresh } => {
             let mut s = engine.input_session().await;
@@ -208,6 +229,8 @@ pub struct Judge {
     /// step of the last execution of each node
     pub last_run: HashMap<Node, usize>,
     pub execs: u64, pub repairs_without_exec: u64, pub queries: u64,
+    /// cyclic programs: answers whose from-scratch evaluation meets a cycle are not judged here
+    pub cyclic: bool, pub judged: u64, pub skipped_cyclic: u64,
 }
 impl Judge {
     pub fn observe(&mut self, prog: &Program, op: &Op, res: &OpResult, step: usize) {
@@ -239,6 +262,7 @@ impl Judge {
         for e in &res.events { if let Event::Done { node, value } = e { done_now.insert(*node, *value); } }
         // C03: justification, judged against the from-scratch values of the *current* inputs
         for n in &order {
+            if self.cyclic { break; }   // C03 quantifies over acyclic programs only
             if n.kind == Kind::External {
                 if self.computed.contains(n) && !in_session {
                     self.violations_c03.push(format!("step {step}: external input {} re-executed outside refresh", n.short()));
@@ -247,7 +271,7 @@ impl Judge {
             }
             if self.computed.contains(n) {
                 let prev = self.prev_reads.get(n).cloned().unwrap_or_default();
-                let changed = prev.iter().any(|(d, seen)| oracle(prog, &self.inputs, &self.ext_seen, *d, 0) != Some(*seen));
+                let changed = prev.iter().any(|(d, seen)| { let o = oracle(prog, &self.inputs, &self.ext_seen, *d, 0); (self.cyclic && o.is_none()) || o != Some(*seen) });
                 // recorded finding: backward projection re-runs a projection whenever a
                 // firewall/projection it reads changed relative to that dependency's own previous
                 // run, even if its value is again the one the projection saw at its last run
@@ -273,6 +297,8 @@ impl Judge {
         for e in &res.events {
             if let Event::Read { by, dep, value } = e {
                 let want = oracle(prog, &self.inputs, &self.ext_seen, *dep, 0);
+                if self.cyclic && want.is_none() { self.skipped_cyclic += 1; continue; }
+                self.judged += 1;
                 if want != Some(*value) {
                     self.violations_c01.push(format!("step {step}: executor of {} was handed {}={} but from-scratch gives {:?}", by.short(), dep.short(), value, want));
                 }
@@ -280,7 +306,8 @@ impl Judge {
         }
         if let (Op::Query(n), Outcome::Value(v)) = (op, &res.outcome) {
             let want = oracle(prog, &self.inputs, &self.ext_seen, *n, 0);
-            if want != Some(*v) {
+            if self.cyclic && want.is_none() { self.skipped_cyclic += 1; }
+            else if want != Some(*v) {
                 self.violations_c01.push(format!("step {step}: query {} returned {} but from-scratch gives {:?}", n.short(), v, want));
             }
             if res.events.iter().all(|e| !matches!(e, Event::Exec(_))) { self.repairs_without_exec += 1; }
@@ -293,4 +320,99 @@ impl Judge {
 
 pub fn scenario_coq(s: &Scenario) -> String {
     format!("{} [{}]", s.prog.coq(), s.ops.iter().map(|o| o.coq()).collect::<Vec<_>>().join("; "))
+}
+
+// ---------------------------------------------------------------- replay: parse the printed form back
+pub mod parse {
+    use super::*;
+    #[derive(Debug, Clone, PartialEq)]
+    enum Tok { L, R, LB, RB, Semi, Comma, Id(String), Num(i64) }
+    fn lex(s: &str) -> Vec<Tok> {
+        let cs: Vec<char> = s.chars().collect();
+        let mut i = 0; let mut out = Vec::new();
+        while i < cs.len() {
+            let c = cs[i];
+            match c {
+                '(' => { out.push(Tok::L); i += 1; }
+                ')' => { out.push(Tok::R); i += 1; }
+                '[' => { out.push(Tok::LB); i += 1; }
+                ']' => { out.push(Tok::RB); i += 1; }
+                ';' => { out.push(Tok::Semi); i += 1; }
+                ',' => { out.push(Tok::Comma); i += 1; }
+                '%' => { i += 1; while i < cs.len() && cs[i].is_alphanumeric() { i += 1; } }   // scope suffix %N
+                c if c.is_whitespace() => i += 1,
+                c if c == '-' || c.is_ascii_digit() => {
+                    let st = i; i += 1; while i < cs.len() && cs[i].is_ascii_digit() { i += 1; }
+                    out.push(Tok::Num(cs[st..i].iter().collect::<String>().parse().unwrap()));
+                }
+                _ => { let st = i; while i < cs.len() && (cs[i].is_alphanumeric() || cs[i] == '_') { i += 1; } out.push(Tok::Id(cs[st..i].iter().collect())); }
+            }
+        }
+        out
+    }
+    struct P { t: Vec<Tok>, i: usize }
+    impl P {
+        fn peek(&self) -> &Tok { &self.t[self.i] }
+        fn next(&mut self) -> Tok { let x = self.t[self.i].clone(); self.i += 1; x }
+        fn eat(&mut self, t: Tok) { let x = self.next(); assert_eq!(x, t, "at token {}", self.i); }
+        fn id(&mut self) -> String { match self.next() { Tok::Id(s) => s, t => panic!("identifier expected, got {t:?}") } }
+        fn num(&mut self) -> i64 {
+            match self.next() { Tok::Num(n) => n, Tok::L => { let n = self.num(); self.eat(Tok::R); n } t => panic!("number expected, got {t:?}") }
+        }
+        fn list<T>(&mut self, mut f: impl FnMut(&mut P) -> T) -> Vec<T> {
+            self.eat(Tok::LB); let mut v = Vec::new();
+            while *self.peek() != Tok::RB { v.push(f(self)); if *self.peek() == Tok::Semi { self.next(); } }
+            self.eat(Tok::RB); v
+        }
+        fn node(&mut self) -> Node {
+            self.eat(Tok::L); assert_eq!(self.id(), "mkNode");
+            let kind = match self.id().as_str() { "KInput" => Kind::Input, "KNormal" => Kind::Normal, "KFirewall" => Kind::Firewall, "KProjection" => Kind::Projection, "KExternal" => Kind::External, k => panic!("kind {k}") };
+            let idx = self.num() as u32; self.eat(Tok::R); Node { kind, idx }
+        }
+        fn expr(&mut self) -> Expr {
+            self.eat(Tok::L);
+            let e = match self.id().as_str() {
+                "EConst" => Expr::Const(self.num()),
+                "ERead" => Expr::Read(self.node()),
+                "EAdd" => { let a = self.expr(); let b = self.expr(); Expr::Add(Box::new(a), Box::new(b)) }
+                "EMul" => { let a = self.expr(); let b = self.expr(); Expr::Mul(Box::new(a), Box::new(b)) }
+                "ELt" => { let a = self.expr(); let b = self.expr(); Expr::Lt(Box::new(a), Box::new(b)) }
+                "EMod" => { let a = self.expr(); let m = self.num(); Expr::Mod(Box::new(a), m) }
+                "EIf" => { let c = self.expr(); let a = self.expr(); let b = self.expr(); Expr::If(Box::new(c), Box::new(a), Box::new(b)) }
+                "EGroup" => Expr::Group(self.list(|p| p.node())),
+                k => panic!("expr {k}"),
+            };
+            self.eat(Tok::R); e
+        }
+        fn op(&mut self) -> Op {
+            if let Tok::Id(s) = self.peek().clone() { if s == "ORestart" { self.next(); return Op::Restart; } }
+            self.eat(Tok::L);
+            let o = match self.id().as_str() {
+                "OSession" => {
+                    let sets = self.list(|p| { p.eat(Tok::L); let v = p.num() as u32; p.eat(Tok::Comma); let x = p.num(); p.eat(Tok::R); (v, x) });
+                    let refresh = self.id() == "true"; Op::Session { sets, refresh }
+                }
+                "OQuery" => Op::Query(self.node()),
+                "OSetWorld" => { let i = self.num() as u32; let v = self.num(); Op::SetWorld(i, v) }
+                "ORestart" => Op::Restart,
+                k => panic!("op {k}"),
+            };
+            self.eat(Tok::R); o
+        }
+    }
+    /// parses `[program] [ops]` as printed by `scenario_coq` (an optional leading `mkCase` and
+    /// anything after the two lists are ignored)
+    pub fn scenario(s: &str) -> Scenario {
+        let mut p = P { t: lex(s), i: 0 };
+        if let Tok::Id(x) = p.peek().clone() { if x == "mkCase" { p.next(); } }
+        let entries = p.list(|p| { p.eat(Tok::L); let n = p.node(); p.eat(Tok::Comma); let e = p.expr(); p.eat(Tok::R); (n, e) });
+        let ops = p.list(|p| p.op());
+        let mut prog = Program::default();
+        let (mut n_inputs, mut n_ext) = (0u32, 0u32);
+        let mut seen = |n: Node| { if n.kind == Kind::Input { n_inputs = n_inputs.max(n.idx + 1); } if n.kind == Kind::External { n_ext = n_ext.max(n.idx + 1); } };
+        for (n, e) in &entries { let mut v = Vec::new(); e.may_read(&mut v); for d in v { seen(d); } seen(*n); }
+        for o in &ops { match o { Op::Session { sets, .. } => for (v, _) in sets { seen(Node { kind: Kind::Input, idx: *v }); }, Op::Query(n) => seen(*n), Op::SetWorld(i, _) => seen(Node { kind: Kind::External, idx: *i }), _ => {} } }
+        for (n, e) in entries { prog.exprs.insert(n, e); }
+        Scenario { prog, n_inputs, n_ext, ops }
+    }
 }
